@@ -9,11 +9,15 @@ Codec (independent of aiohttp, RFC 6455 section 5.2)
     frame_kind(frame) -> "data" | "ping" | "pong" | "close" | "cont" | "other";  close_code(frame)
 
 Sessions
-    ServerSession(loop, ws_kw)   real web.Server -> RequestHandler on a MemTransport; the scripted
+    ServerSession(loop, ws_kw, compress=False)
+                                 real web.Server -> RequestHandler on a MemTransport; the scripted
                                  peer sends the upgrade request; the handler prepares a real
                                  WebSocketResponse(**ws_kw) and parks until tear-down, so
                                  connection_lost -> _cancel(exc) is the real path
-    ClientSession_(loop, ws_kw)  engine.clikit.ClientKit; ClientSession.ws_connect(**ws_kw); the
+                                 compress=True: permessage-deflate is negotiated (frames the peer sends stay
+                                 uncompressed, which the extension permits)
+    ClientSession_(loop, ws_kw, compress=False)
+                                 engine.clikit.ClientKit; ClientSession.ws_connect(**ws_kw); the
                                  scripted peer answers the upgrade with a 101 computed from
                                  Sec-WebSocket-Key; .ws is the real ClientWebSocketResponse
   both:  .ws  .tr (MemTransport of our side)  .side
@@ -29,7 +33,8 @@ BLoop(loop)   iteration-accurate stepping of a StepLoop (the "|" marker of spec/
     .at_boundary()  .begin()  .head() -> label of the next handle  .step() -> label
     .io(fn, *args)  queue a network event as a handle (call at a boundary)
     .tick(dt=1) -> [labels of the timers that became due]      .settle()
-    label(handle): task name | "io:<kind>" | "lost" | "tmo<task>" | "hb" | "pong" | "hbflush" | "other:<name>"
+    label(handle): task name | "io:<kind>" | "lost" | "tmo<task>" | "hb" | "pong" | "hbflush" |
+                   "exec" "stask" "bgdone" "shield" "odone" (large compressed send) | "other:<name>"
 """
 from __future__ import annotations
 
@@ -170,7 +175,10 @@ class BLoop:
         cb = h._callback
         owner = getattr(cb, "__self__", None)
         if isinstance(owner, _tasks._PyTask):
-            return self.names.get(owner, "task:?")
+            if owner in self.names:
+                return self.names[owner]
+            cn = getattr(owner.get_coro(), "__name__", "")
+            return "stask" if cn == "_send_compressed_frame_async_locked" else "task:?"
         name = getattr(cb, "__name__", "") or type(cb).__name__
         if name == "_io_deliver":
             return "io:" + str(h._args[0])
@@ -184,6 +192,14 @@ class BLoop:
             return "pong"
         if name == "_flush_heartbeat_reset":
             return "hbflush"
+        if name == "_run":                      # StepLoop.run_in_executor job (deflate of a large message)
+            return "exec"
+        if name == "discard":                   # WebSocketWriter._background_tasks.discard
+            return "bgdone"
+        if name == "_inner_done_callback":      # asyncio.shield
+            return "shield"
+        if name == "_outer_done_callback":
+            return "odone"
         return "other:" + name
 
     def head(self) -> Optional[str]:
@@ -311,7 +327,7 @@ class _Session:
 class ServerSession(_Session):
     side = "server"
 
-    def __init__(self, loop: Any, ws_kw: Optional[dict] = None) -> None:
+    def __init__(self, loop: Any, ws_kw: Optional[dict] = None, *, compress: bool = False) -> None:
         super().__init__(loop)
         from aiohttp import web
 
@@ -321,7 +337,7 @@ class ServerSession(_Session):
         sess = self
 
         async def handler(request: Any) -> Any:
-            ws = web.WebSocketResponse(**(ws_kw or {}))
+            ws = web.WebSocketResponse(compress=compress, **(ws_kw or {}))
             await ws.prepare(request)
             sess.ws = ws
             try:
@@ -337,11 +353,14 @@ class ServerSession(_Session):
         self.proto.connection_made(tr)
         key = base64.b64encode(b"0123456789abcdef").decode()
         req = (f"GET /ws HTTP/1.1\r\nHost: h\r\nUpgrade: websocket\r\nConnection: Upgrade\r\n"
-               f"Sec-WebSocket-Key: {key}\r\nSec-WebSocket-Version: 13\r\n\r\n").encode()
+               f"Sec-WebSocket-Key: {key}\r\nSec-WebSocket-Version: 13\r\n"
+               + ("Sec-WebSocket-Extensions: permessage-deflate\r\n" if compress else "") + "\r\n").encode()
         tr.feed(req)
         loop.run_until_idle()
         if self.ws is None or b"101" not in bytes(tr.written[:16]):
             raise RuntimeError(f"server upgrade failed: {bytes(tr.written[:80])!r}")
+        if bool(self.ws.compress) != compress:
+            raise RuntimeError("permessage-deflate negotiation did not go as scripted")
         self.handler_task = self.proto._task_handler
         self._hook(tr, 0)
         tr.written.clear()
@@ -369,13 +388,13 @@ class ServerSession(_Session):
 class ClientSession_(_Session):
     side = "client"
 
-    def __init__(self, loop: Any, ws_kw: Optional[dict] = None) -> None:
+    def __init__(self, loop: Any, ws_kw: Optional[dict] = None, *, compress: bool = False) -> None:
         super().__init__(loop)
         from .clikit import ClientKit
 
         self.kit = ClientKit(loop)
         kw = dict(ws_kw or {})
-        kw.setdefault("compress", 0)
+        kw["compress"] = 15 if compress else 0
         t = self.kit.spawn("ws", self.kit.session.ws_connect("http://host/ws", **kw))
         loop.run_until_idle()
         if not self.kit.conns:
@@ -386,12 +405,15 @@ class ClientSession_(_Session):
             raise RuntimeError("client wrote no upgrade request")
         hd = {k.lower(): v for k, v in reqs[0]["headers"]}
         resp = ("HTTP/1.1 101 Switching Protocols\r\nUpgrade: websocket\r\nConnection: upgrade\r\n"
-                f"Sec-WebSocket-Accept: {accept_value(hd['sec-websocket-key'])}\r\n\r\n").encode()
+                f"Sec-WebSocket-Accept: {accept_value(hd['sec-websocket-key'])}\r\n"
+                + ("Sec-WebSocket-Extensions: permessage-deflate\r\n" if compress else "") + "\r\n").encode()
         c.feed(resp)
         loop.run_until_idle()
         if not t.done() or t.exception() is not None:
             raise RuntimeError(f"ws_connect failed: {t!r}")
         self.ws = t.result()
+        if bool(self.ws.compress) != compress:
+            raise RuntimeError("permessage-deflate negotiation did not go as scripted")
         self.conn = c
         self._hook(c.tr, 0)
         c.tr.written.clear()
